@@ -1,0 +1,51 @@
+//go:build verif
+
+// Contracts for validation_builtin.go (properties C20, C12).
+
+package pubsub
+
+// The PeerMetadataStore is abstracted by two ghost maps: the length of the bytes stored for a
+// peer (0 = nothing stored) and their big-endian value. Assumed contract of the interface
+// (listed as an assumption): Get returns the bytes of the last successful Put, errors change
+// nothing, and the store has no other writer.
+//@ ghost var stLen mmap[string]int
+//@ ghost var stNonce mmap[string]int
+//@ spec fn nonceOf(p string) int = ite(stLen[p] > 0, stNonce[p], 0)
+//@ spec fn seqnoOf(m *Message) int = ite(m.Message != nil && len(m.Message.Seqno) >= 8, be64(m.Message.Seqno), 0)
+//@ spec fn authorOf(m *Message) string = ite(m.Message != nil, bytestr(m.Message.From), "")
+
+//@ iface PeerMetadataStore.Get
+//@   modifies nothing
+//@   ensures value: result1 == nil ==> len(result0) == stLen[arg1] && (len(result0) >= 8 ==> be64(result0) == stNonce[arg1])
+
+//@ iface PeerMetadataStore.Put
+//@   modifies stLen, stNonce
+//@   ensures stored: result == nil ==> stLen[arg1] == len(arg2) && stNonce[arg1] == old(be64(arg2)) &&
+//@        (forall x string :: x != arg1 ==> stLen[x] == old(stLen[x]) && stNonce[x] == old(stNonce[x]))
+//@   ensures failed: result != nil ==> (forall x string :: stLen[x] == old(stLen[x]) && stNonce[x] == old(stNonce[x]))
+
+//@ monitor BasicSeqnoValidator.mx
+//@   ghosts stLen, stNonce
+//@   invariant lens: forall x string :: stLen[x] == 0 || stLen[x] == 8
+//@   invariant range: forall x string :: stNonce[x] >= 0
+
+//@ func (*Message).GetFrom
+//@   inline
+
+//@ func (*BasicSeqnoValidator).validate
+//@   property C20 C12
+//@   safe
+//@   requires args: m != nil && v.meta != nil && v.logger != nil
+//@   modifies monitor(BasicSeqnoValidator.mx)
+//@   ensures verdicts: result == ValidationAccept || result == ValidationIgnore
+//@   ensures accept-greater: result == ValidationAccept ==> seqnoOf(m) > lin(nonceOf(authorOf(m)))
+//@   ensures accept-stores: result == ValidationAccept ==>
+//@        nonceOf(authorOf(m)) == seqnoOf(m) || nonceOf(authorOf(m)) == lin(nonceOf(authorOf(m)))
+//@   ensures accept-put: result == ValidationAccept ==> calls(PeerMetadataStore.Put) == old(calls(PeerMetadataStore.Put)) + 1
+//@   ensures stale-ignored: seqnoOf(m) <= lin(nonceOf(authorOf(m))) ==> result == ValidationIgnore
+//@   ensures ignore-unchanged: result == ValidationIgnore ==>
+//@        (forall x string :: stLen[x] == lin(stLen[x]) && stNonce[x] == lin(stNonce[x]))
+//@   ensures ignore-no-put: result == ValidationIgnore ==> calls(PeerMetadataStore.Put) == old(calls(PeerMetadataStore.Put))
+//@   ensures monotone: forall x string :: nonceOf(x) >= lin(nonceOf(x))
+//@   ensures others-unchanged: forall x string :: x != authorOf(m) ==> stLen[x] == lin(stLen[x]) && stNonce[x] == lin(stNonce[x])
+//@   ensures released: !held(v.mx)
